@@ -1,5 +1,7 @@
 import Hertz.Proofs.Fs
 import Hertz.Proofs.FsTree
+import Hertz.Proofs.FsCache
+import Hertz.Proofs.FsCachePool
 /-!
 # C08 — static file responses return exactly the requested bytes
 
@@ -22,7 +24,7 @@ The second part (`## which file is served`) is about the open path — `openFSFi
 (trees that change between requests: planted / stale / newer `.hertz.gz` siblings, roll-backs with
 preserved mtimes, restarts, real cache expiry).
 
-Not modelled (exercised by the correspondence only): reader ref-counts, the gzip encoder itself
+Not modelled (exercised by the correspondence only): the gzip encoder itself
 (a compressed file is "some gzip stream of these bytes"), directories and index page generation,
 `If-Modified-Since`, path normalisation (C07).
 -/
@@ -238,6 +240,148 @@ example :
     let pre : List Step := [.write [97] [7, 7] 9 true, .get [97] false true [], .write [97] [1, 2, 3] 2 true]
     (fetch true (stateAfter true {} pre) [97] [] true).2 = .ok ⟨.gz (.raw [7, 7]), true, 9⟩ ∧
     (Spec.viewOf [97] pre).since = [some [1, 2, 3], some [7, 7], none] := by decide
+
+
+/-! ## the cache and the reader reference counts (open path) as a state machine
+
+`Hertz/Model/FsCache.lean`: one `fsHandler` — every `fsFile` it created (count, reader pool, OS file open?, cached?,
+pending?, expired?), the readers held by responses, the tree below the root — under every sequence of requests
+(small / big files, `index.html` of a directory, Range, HEAD, If-Modified-Since → 304), deliveries of held bodies,
+changes of the tree (remove, replace by a file or a directory), expiry, and `cleanCache` rounds.  `bin/check C08` holds it to
+the Go code with the `fscache` scenarios (status, Content-Length, Content-Range, body bytes, and the number of open
+descriptors after every step).  Quantifiers: all op sequences of every length, both `AcceptByteRange` settings, every Range
+header value, every tree.  Requests are sequential (`cacheLock` serialises the count updates; two requests inside
+`handleRequest` at once are not modelled).
+
+Not modelled: `compressedCache`, generated index pages.
+-/
+section cache
+open Hertz.FsCache
+
+/-- **No reference-count panic, and no other one**: every sequence of operations runs to the end; in particular
+`panic("BUG: negative fsFile.readersCount!")` (`Fault.negativeCount`) is unreachable. -/
+theorem no_refcount_panic (accept : Bool) (ops : List Op) : ∃ s, run accept {} ops = .ok s :=
+  (G_run accept ops G_init).imp fun _ h => h.1
+
+/-- In every reachable state the count of an `fsFile` is exactly the number of readers handed to responses and not
+yet closed. -/
+theorem readers_count_is_live_readers (accept : Bool) (ops : List Op) (s : FsCache.State) (h : run accept {} ops = .ok s) :
+    ∀ o ∈ s.objs, o.rc = (countFid o.id s.live : Int) := by
+  obtain ⟨s', e, g⟩ := G_run accept ops G_init
+  rw [h] at e; cases e
+  intro o ho; simpa using g.cnt o ho
+
+theorem count_never_negative (accept : Bool) (ops : List Op) (s : FsCache.State) (h : run accept {} ops = .ok s) :
+    ∀ o ∈ s.objs, 0 ≤ o.rc := by
+  intro o ho
+  rw [readers_count_is_live_readers accept ops s h o ho]; omega
+
+/-- The OS file of an `fsFile` is closed (`Release`) only when it is out of the cache, out of the cleaner's pending
+list, and no response holds a reader of it; and it stays that way (the statement holds in every reachable state). -/
+theorem file_closed_only_when_unreferenced (accept : Bool) (ops : List Op) (s : FsCache.State) (h : run accept {} ops = .ok s) :
+    ∀ o ∈ s.objs, o.fileOpen = false → o.cached = false ∧ o.pending = false ∧ countFid o.id s.live = 0 ∧ o.rc = 0 := by
+  obtain ⟨s', e, g⟩ := G_run accept ops G_init
+  rw [h] at e; cases e
+  intro o ho hf
+  obtain ⟨a, b, c, _⟩ := g.closed o ho hf
+  refine ⟨a, b, c, ?_⟩
+  have := g.cnt o ho
+  simp [c] at this; exact this
+
+/-- Every download in flight reads from an `fsFile` whose OS file is still open, whatever happened in between
+(other requests failing, the file removed, the cache expired and cleaned). -/
+theorem live_reader_file_open (accept : Bool) (ops : List Op) (s : FsCache.State) (h : run accept {} ops = .ok s) :
+    ∀ r ∈ s.live, ∃ o ∈ s.objs, o.id = r.fid ∧ o.fileOpen = true := by
+  obtain ⟨s', e, g⟩ := G_run accept ops G_init
+  rw [h] at e; cases e
+  intro r hr
+  obtain ⟨o, ho, e⟩ := g.ref r hr
+  refine ⟨o, ho, e, ?_⟩
+  cases hf : o.fileOpen with
+  | true => rfl
+  | false =>
+    have c := (g.closed o ho hf).2.2.1
+    have := countFid_pos_of_mem hr
+    rw [← e] at this; omega
+
+/-- A request that is answered without a body stream — 404, 403, 500 (the cached big file cannot be re-opened), 416, 304,
+HEAD — leaves the readers in flight as they were, and every count still equal to their number: a failed open gives its
+reference back exactly once. -/
+theorem failed_open_leaves_counts_unchanged (accept : Bool) (ops : List Op) (s s' : FsCache.State) (a : Ans)
+    (key : Nat) (head : Bool) (ims : Option Nat) (range : Bytes)
+    (h : run accept {} ops = .ok s) (hr : handleRequest accept key head ims range s = .ok (s', a)) (hn : a.rid = none) :
+    s'.live = s.live ∧ ∀ o ∈ s'.objs, o.rc = (countFid o.id s.live : Int) := by
+  obtain ⟨s0, e, g⟩ := G_run accept ops G_init
+  rw [h] at e; cases e
+  obtain ⟨s1, a1, e1, g1, l1⟩ := G_handleRequest accept key head ims range g
+  rw [hr] at e1; cases e1
+  refine ⟨l1 hn, ?_⟩
+  intro o ho
+  rw [← l1 hn]; simpa using g1.cnt o ho
+
+/-- non-vacuity: a 9000-byte file is being downloaded, is removed, and is requested again: 500, the count stays 1,
+the held reader stays; then the body is delivered and the cache cleaned: count 0, file released. -/
+example :
+    let ops : List Op := [.setNode 0 (.file ⟨1, 9000⟩ 1), .req 0 false none [], .setNode 0 .absent, .req 0 false none []]
+    (run true {} ops).toOption.map (fun s => (s.objs.map (·.rc), s.live.map (·.rid), fds s)) = some ([1], [1], 2) ∧
+    (run true {} (ops ++ [.close 1, .expire, .tick])).toOption.map
+      (fun s => (s.objs.map (·.rc), s.objs.map (·.fileOpen), fds s)) = some ([0], [false], 0) := by decide
+/-- the fault is a real outcome of the model: the decrement of seed C08-m5, done twice for one request, panics -/
+example :
+    (match (decReadersCount 0 ⟨[⟨0, 0, false, ⟨1, 9000⟩, 1, 1, [], true, true, false, false⟩], [], 1, fun _ => .absent⟩).bind
+        (decReadersCount 0) with
+     | .error f => some f
+     | .ok _ => none) = some FsCache.Fault.negativeCount := by decide
+
+/-- **A pooled reader is not live**: in every reachable state a `bigFileReader` object that sits in the pool of an `fsFile`
+(`ff.bigFiles`) is not held by any response. -/
+theorem pooled_reader_not_live (accept : Bool) (ops : List Op) (s : FsCache.State) (h : run accept {} ops = .ok s) :
+    ∀ o ∈ s.objs, ∀ p ∈ o.pool, ∀ r ∈ s.live, p.rid ≠ r.rid := by
+  obtain ⟨s', e, _, p⟩ := GP_run accept ops G_init P_init
+  rw [h] at e; cases e
+  intro o ho q hq r hr
+  exact P_pooled_not_live p ho hq hr
+
+/-- Every reader object is in at most one place, once: held by one response, or in the pool of one `fsFile`. -/
+theorem reader_in_one_place (accept : Bool) (ops : List Op) (s : FsCache.State) (h : run accept {} ops = .ok s) :
+    ∀ rid, occ rid s ≤ 1 := by
+  obtain ⟨s', e, _, p⟩ := GP_run accept ops G_init P_init
+  rw [h] at e; cases e
+  intro rid; simpa using p.one rid
+
+/-- non-vacuity: one download of a big file in flight (reader 1), a second one finished (reader 2, pooled); the next
+request takes reader 2 out of the pool again -/
+example :
+    let ops : List Op := [.setNode 0 (.file ⟨1, 9000⟩ 1), .req 0 false none [], .req 0 false none [], .close 2]
+    (run true {} ops).toOption.map (fun s => (s.objs.map (fun o => o.pool.map (·.rid)), s.live.map (·.rid))) = some ([[2]], [1]) ∧
+    (run true {} (ops ++ [.req 0 false none []])).toOption.map
+      (fun s => (s.objs.map (fun o => o.pool.map (·.rid)), s.live.map (·.rid))) = some ([[]], [2, 1]) := by decide
+
+/-- The Go source still touches `readersCount` exactly where the model does (`Hertz/Gen/Fs.lean`, regenerated on every
+run from ALL functions of `pkg/app/fs.go`): one increment per cache hit / insertion in `handleRequest`, one decrement in
+`handleRequest` (304), one in `NewReader` (re-open failed) and one in each `Close`; `bigFileReader()` itself has none; files
+are released by `cleanCache` only (and by the twice-opened branch of `handleRequest`).  A new site — such as a second
+decrement on the failed re-open — changes the list and breaks this theorem. -/
+theorem model_matches_gen_refcounts :
+    Gen.Fs.rcSites =
+      [("fsSmallFileReader.Close", ["ff.decReadersCount()"]),
+       ("bigFileReader.Close", ["r.ff.decReadersCount()"]),
+       ("fsHandler.cleanCache", ["if ff.readersCount > 0", "ff.Release()"]),
+       ("fsFile.decReadersCount", ["ff.readersCount--", "if ff.readersCount < 0", "panic(\"BUG: negative fsFile.readersCount!\")"]),
+       ("fsFile.NewReader", ["ff.decReadersCount()"]),
+       ("fsHandler.handleRequest", ["ff.readersCount++", "fileCache[pathStr] = ff", "ff.readersCount++", "ff1.readersCount++",
+                                    "ff.Release()", "ff.decReadersCount()"]),
+       ("cleanCacheNolock", ["if ff.readersCount > 0", "delete(cache, k)"])] ∧
+    Gen.Fs.newReader = ["if ff.isBig()", "r, err := ff.bigFileReader()", "if err != nil", "ff.decReadersCount()",
+                        "return r, err", "return ff.smallFileReader(), nil"] ∧
+    Gen.Fs.fsFileBigFileReader.length = 15 ∧ "f, err := os.Open(ff.f.Name())" ∈ Gen.Fs.fsFileBigFileReader ∧
+    Gen.Fs.bigClose.length = 13 ∧ Gen.Fs.smallClose.length = 7 ∧ Gen.Fs.release.length = 6 ∧
+    Gen.Fs.cleanCache.length = 13 ∧ Gen.Fs.cleanCacheNolock.length = 8 ∧ Gen.Fs.decReadersCount.length = 4 := by
+  refine ⟨rfl, rfl, rfl, by decide, rfl, rfl, rfl, rfl, rfl, rfl⟩
+
+example : (Gen.Fs.rcSites.map (·.1)).length = 7 := by decide
+
+end cache
 
 /-- The Go sources still have the shape the model was written against (see `Hertz/Gen/Fs.lean`). -/
 theorem model_matches_gen_C08 :
